@@ -34,8 +34,9 @@ MANIFEST = {
     "note": "Trusted: CPython's comparison and hashing of int/float/bool/bytes/str/complex (parameters of the model; the "
             "int instance is computed by the model itself), do_richcompare as transcribed, the harness. Comparison of "
             "unrelated C pointers is modelled as unsigned address comparison (what gcc emits on x86-64).",
-    "technique": "Lean 4 proof (case analysis over operand kinds and the dispatch order) + differential correspondence on "
-                 "random object pools, with an independent address/value oracle",
+    "technique": "Lean 4 proof (case analysis over operand kinds and the dispatch order) over definitions re-extracted from "
+                 "cdata_richcompare/cdata_hash on every run + differential correspondence on random object pools, with an "
+                 "independent address/value oracle",
 }
 
 RULE = ("pools of 26 objects drawn from: casts of a small set of colliding numbers (0, 1, -1, 65, 255, 256, -5, 2^31.., 2^63.., "
@@ -206,7 +207,7 @@ def _nothing(p):
 
 
 class Item(object):
-    __slots__ = ("rc", "obj", "kind", "addr", "pv", "unstable", "oid", "cd")
+    __slots__ = ("rc", "obj", "kind", "addr", "pv", "unstable", "oid", "cd", "ck")
 
 
 def classify(st, rc, oid):
@@ -215,7 +216,7 @@ def classify(st, rc, oid):
     it = Item()
     it.rc, it.oid = rc, oid
     x = it.obj = build(st, rc)
-    it.addr = it.pv = None
+    it.addr = it.pv = it.ck = None
     it.unstable = False
     it.cd = isinstance(x, ffi.CData)
     if not it.cd:
@@ -223,28 +224,30 @@ def classify(st, rc, oid):
     else:
         t = ffi.typeof(x)
         if t.kind in ("pointer", "array", "function"):
-            it.kind, it.addr = "ptr", int(ffi.cast("uintptr_t", x))
+            it.kind, it.addr, it.ck = "ptr", int(ffi.cast("uintptr_t", x)), t.kind
         elif t.kind in ("struct", "union"):
-            it.kind, it.addr = "ptr", int(ffi.cast("uintptr_t", ffi.addressof(x)))
+            it.kind, it.addr, it.ck = "ptr", int(ffi.cast("uintptr_t", ffi.addressof(x))), t.kind
         elif t.cname == "long double":
-            it.kind = "ld"
+            it.kind, it.ck = "ld", "longdouble"
         elif t.kind == "enum":
             it.kind, it.pv = "prim", int(x)
+            it.ck = "enum" if int(ffi.cast(t, -1)) < 0 else "uenum"
         elif t.kind == "primitive":
             it.kind = "prim"
             c = t.cname
             if c == "_Bool":
-                it.pv = bool(int(x))
+                it.pv, it.ck = bool(int(x)), "bool"
             elif c == "char":
-                it.pv = bytes([int(x)])
+                it.pv, it.ck = bytes([int(x)]), "char"
             elif c in ("wchar_t", "char16_t", "char32_t"):
-                it.pv = chr(int(x))
+                it.pv, it.ck = chr(int(x)), "char"
             elif c in ("float", "double"):
-                it.pv = float(x)
+                it.pv, it.ck = float(x), "float"
             elif "omplex" in c:
-                it.pv = complex(x)
+                it.pv, it.ck = complex(x), "complex"
             else:
                 it.pv = int(x)
+                it.ck = "signed" if int(ffi.cast(t, -1)) < 0 else "unsigned"
         else:
             raise InfraError("unexpected cdata kind %s" % t.kind)
     pv = it.pv
@@ -257,13 +260,14 @@ def classify(st, rc, oid):
 
 def token(it):
     if it.kind == "ptr":
-        return "ptr:%d:%d" % (it.oid, it.addr)
+        return "ptr:%d:%d:%s" % (it.oid, it.addr, it.ck)
     if it.kind == "ld":
-        return "ld:%d:0" % it.oid
+        return "ld:%d:0:longdouble" % it.oid
     pre = "p" if it.kind == "prim" else "y"
+    suf = ":" + it.ck if it.kind == "prim" else ""
     if isinstance(it.pv, int):       # bool included: compares and hashes as 0/1
-        return "%si:%d:%d" % (pre, it.oid, int(it.pv))
-    return "%so:%d:%d" % (pre, it.oid, it.oid)
+        return "%si:%d:%d%s" % (pre, it.oid, int(it.pv), suf)
+    return "%so:%d:%d%s" % (pre, it.oid, it.oid, suf)
 
 
 # ---------------------------------------------------------------- outcomes
@@ -449,6 +453,16 @@ def run(ctx, npools, oracle_only=False):
     for o, (case, want, what) in zip(out, expect):
         if o != want:
             ctx.disagree(case, want, o, what)
+
+
+def translators(ctx):
+    """Generated/CompareExprs.lean: the flag tests, the six pointer comparisons, the operand order of the delegated
+    comparison and the hashed pointer, re-extracted from cdata_richcompare / cdata_hash (translate/c17_exprs.py)."""
+    import os
+    import sys
+    sys.path.insert(0, os.path.join(common.VERIF, "translate"))
+    import c17_exprs
+    return [c17_exprs.translator]
 
 
 def correspond(ctx):
